@@ -51,17 +51,22 @@ let opstr = function
   | ORecord i -> "record " ^ sn i
   | OCrash -> "crash"
 
-let is_write = function OFs (FWrite _) | OFs (FWriteAt _) -> true | _ -> false
+let dopstr = function
+  | DBase o -> opstr o
+  | DSmRecover i -> "smrecover " ^ sn i
+  | DSmSync -> "smsync"
+
+let is_write = function DBase (OFs (FWrite _)) | DBase (OFs (FWriteAt _)) -> true | _ -> false
 
 (* canonical operations: a run of writes to one file is one operation.
    returns the canonical strings and, for a budget of [room] canonical
    operations, the raw prefix that stays within it *)
-let canon (tr : op list) (room : int) : string list * op list * bool =
+let canon (tr : dop list) (room : int) : string list * dop list * bool =
   let rec go tr last cnt acc raw =
     match tr with
     | [] -> (List.rev acc, List.rev raw, false)
     | o :: r ->
-      let s = opstr o in
+      let s = dopstr o in
       if is_write o && last = Some s then go r last cnt acc (o :: raw)
       else if cnt >= room then (List.rev acc, List.rev raw, true)
       else go r (if is_write o then Some s else None) (cnt + 1) (s :: acc) (o :: raw) in
@@ -87,8 +92,12 @@ let tree_string (s : state) : string =
 let oc_string = function
   | Done -> "ok" | Failed -> "err" | OutOfDate -> "ood" | Skipped -> "skip" | Panicked -> "panic"
 
-let parse_cmd (s : string) : cmd * string =
+type pcmd = Base of cmd | Recover of n
+
+let parse_cmd (s : string) : pcmd * string =
   match split_ws s with
+  | ["RECOVER"; i] -> (Recover (n_of_string i), "RECOVER " ^ i)
+  | l -> let (c, str) = (match l with
   | ["SAVE"; i; n] -> (CSave (n_of_string i, n_of_string n), "SAVE " ^ i ^ " " ^ n)
   | ["COMMIT"; i] -> (CCommit (n_of_string i), "COMMIT " ^ i)
   | ["RECV"; i; n] -> (CRecv (n_of_string i, n_of_string n), "RECV " ^ i ^ " " ^ n)
@@ -97,7 +106,7 @@ let parse_cmd (s : string) : cmd * string =
   | ["COMPACT"; i] -> (CCompact (n_of_string i), "COMPACT " ^ i)
   | ["RESTART"] -> (CRestart, "RESTART")
   | ["CRASH"] -> (CCrash, "CRASH")
-  | _ -> failwith ("bad command: " ^ s)
+  | _ -> failwith ("bad command: " ^ s)) in (Base c, str)
 
 let split_on (sep : string) (s : string) : string list =
   Str.split_delim (Str.regexp_string sep) s
@@ -115,18 +124,36 @@ let () =
       let cut = List.fold_left (fun acc kv ->
         if String.length kv > 4 && String.sub kv 0 4 = "cut=" then int_of_string (String.sub kv 4 (String.length kv - 4)) else acc)
         (-1) (List.tl hf) in
+      let disk = List.mem "kind=disk" hf in
       let cmds = List.filter (fun x -> String.trim x <> "") (split_on " ; " body) in
-      let s = ref init in
+      let s = ref { ds_st = init; ds_smv = N0; ds_smd = N0 } in
+      let lr = ref N0 in
       let total = ref 0 in
       let stop = ref false in
+      let lift tr = List.map (fun o -> DBase o) tr in
+      (* one command: final state, executed operations, outcome *)
+      let exec_cmd (c : pcmd) : dstate * dop list * outcome =
+        match c with
+        | Recover i ->
+          let ((s', tr), oc) = cmd_install !s !lr i in
+          if oc <> Skipped then lr := i;
+          (s', tr, oc)
+        | Base c ->
+          let ((_, tr), oc) = do_cmd ord !s.ds_st c in
+          let s1 = drun !s (lift tr) in
+          if disk && c = CCrash && oc = Done then begin
+            lr := s1.ds_st.st_rec;
+            let ((s2, tr2), oc2) = init_recover s1 in
+            (s2, lift tr @ tr2, oc2)
+          end else (s1, lift tr, oc) in
       List.iteri (fun n cs ->
         if not !stop then begin
           let (c, cstr) = parse_cmd (String.trim cs) in
-          let ((s', tr), oc) = do_cmd ord !s c in
+          let (s', tr, oc) = exec_cmd c in
           let room = if cut < 0 then max_int else cut - !total in
           let (cs, raw, over) = canon tr room in
           if over then begin
-            s := run !s raw;
+            s := drun !s raw;
             Printf.printf "%s cmd %d %s -> cut : %s\n" id n cstr (ops_string cs);
             stop := true
           end else begin
@@ -137,11 +164,21 @@ let () =
           end
         end) cmds;
       if cut < 0 then
-        Printf.printf "%s tree %s rec=%s\n" id (tree_string !s) (sn !s.st_rec);
-      let c = run !s [OCrash] in
-      Printf.printf "%s crashed %s rec=%s\n" id (tree_string c) (sn c.st_rec);
-      let ((f, tr), ok) = process_orphans ord c in
-      let (cs, _, _) = canon tr max_int in
+        Printf.printf "%s tree %s rec=%s\n" id (tree_string !s.ds_st) (sn !s.ds_st.st_rec);
+      let c = drun !s [DBase OCrash] in
+      if disk then
+        Printf.printf "%s crashed %s rec=%s sm=%s\n" id (tree_string c.ds_st) (sn c.ds_st.st_rec) (sn c.ds_smd)
+      else
+        Printf.printf "%s crashed %s rec=%s\n" id (tree_string c.ds_st) (sn c.ds_st.st_rec);
+      let ((f, tr), ok) = process_orphans ord c.ds_st in
+      let (cs, _, _) = canon (lift tr) max_int in
       Printf.printf "%s po -> %s : %s\n" id (if ok then "ok" else "err") (ops_string cs);
+      let f =
+        if disk && ok then begin
+          let ((r, tr2), oc2) = init_recover (drun c (lift tr)) in
+          let (cs2, _, _) = canon tr2 max_int in
+          Printf.printf "%s restart -> %s : %s\n" id (oc_string oc2) (ops_string cs2);
+          r.ds_st
+        end else f in
       Printf.printf "%s final %s rec=%s clean=%b\n" id (tree_string f) (sn f.st_rec) (ok && cleanb f)
     end)
